@@ -9,6 +9,8 @@ EXTRA = {
     "C08-c": ["C19", "C11"], "C08-d": ["C16"], "C10-c": [], "C10-d": ["C12", "C09"], "C11-c": ["C13"], "C11-d": ["C16", "C08"],
     "C12-c": ["C19", "C11"], "C13-c": ["C11"], "C13-d": ["C02"], "C15-c": ["C07"], "C16-c": ["C11", "C08"], "C16-d": ["C08", "C01"],
     "C17-c": [], "C17-d": ["C06", "C07"], "C18-c": [], "C18-d": ["C16"], "C19-c": [], "C19-d": ["C08"], "C20-c": [], "C20-d": [],
+    "C06-e": ["C03"], "C06-f": ["C09"], "C13-e": ["C06"], "C13-f": ["C06"], "C15-e": ["C06"], "C15-f": ["C02", "C13"], "C17-e": ["C06"], "C17-f": ["C19"],
+    "C02-e": ["C07"], "C02-f": ["C16", "C08"], "C10-e": ["C06", "C08"], "C10-f": ["C15", "C13"], "C16-e": [], "C16-f": [], "C19-e": ["C04"], "C19-f": [],
     "R1": ["C01", "C05", "C08"], "R2": [], "R3": ["C06"], "R4": ["C06"],  # additional checks worth running per seed (besides the seed's own property)
     "C01-a": ["C04", "C05"], "C01-b": ["C02", "C07"], "C02-a": ["C07"], "C02-b": ["C08", "C19"], "C03-a": ["C15"], "C03-b": ["C06"],
     "C04-b": ["C06"], "C05-a": ["C06"], "C05-b": ["C06", "C09"], "C06-a": ["C04"], "C06-b": [], "C07-a": ["C02"], "C07-b": ["C06"],
